@@ -521,6 +521,26 @@ class CEval(object):
         v = self.ex.coerce(self.ev(n.args[0]), TCell)
         return SV(TInt, ptypes.cell_ival(v.t))
 
+    def i_token_value(self, n):
+        c = self.ex.coerce(self.ev(n.args[0]), TCell)
+        name, pt, arr = self.ex.field_arr(self.st, 'rbql_engine.RBQLAggregationToken', 'value')
+        return SV(pt, Select(arr, ptypes.dt_sel('oid', c.t, INT, 'CObj')))
+
+    def i_token_marker(self, n):
+        c = self.ex.coerce(self.ev(n.args[0]), TCell)
+        name, pt, arr = self.ex.field_arr(self.st, 'rbql_engine.RBQLAggregationToken', 'marker_id')
+        return SV(pt, Select(arr, ptypes.dt_sel('oid', c.t, INT, 'CObj')))
+
+    def i_agg_writer(self, n):
+        v = self.ev(n.args[0])
+        return SV(TObj('rbql_engine.AggregateWriter'), v.t)
+
+    def i_old_field_hist(self, n):
+        # the history, at function entry, of the aggregator object denoted now
+        v = self.ev(n.args[0])
+        name, pt, arr = self.ex.field_arr(self.entry, 'rbql_engine.Aggregator', 'hist')
+        return SV(pt, Select(arr, v.t))
+
     def i_py_equal(self, n):
         a = self.ex.coerce(self.ev(n.args[0]), TCell)
         b = self.ex.coerce(self.ev(n.args[1]), TCell)
